@@ -111,9 +111,12 @@ def structural_mutants(text: str, version: str):
         'Sense': ['id', 'synset'], 'ExternalSense': ['id'],
         'Synset': ['id'], 'ExternalSynset': ['id'], 'ExternalForm': ['id'],
         'SenseRelation': ['target', 'relType'], 'SynsetRelation': ['target', 'relType'],
+        # what a form / a frame IS: its written form, its frame string
+        'Lemma': ['writtenForm'], 'Form': ['writtenForm'],
+        'SyntacticBehaviour': ['subcategorizationFrame'],
     }
     for elem, attrs in ident.items():
-        for m in each_tag(elem):
+        for m in each_tag(elem, 8 if elem == 'SyntacticBehaviour' else 2):
             for a in attrs:
                 tag = m.group(0)
                 new = re.sub(r'\s%s=("[^"]*"|\'[^\']*\')' % a, '', tag, count=1)
@@ -236,6 +239,7 @@ def run_one(seed, tier, explicit=None):
     prof['max_synsets'] = min(prof['max_synsets'], 4)
     prof['special'] = rng.choice([0.3, 0.6, 0.9])
     prof['p_attr_special'] = 0.6
+    prof['p_ext_entry_frames'] = 0.5
     u = explicit['universe'] if explicit else U.generate(rng, prof)
     prng = subseed(seed, 'plan')
     sim = Case(u, seed, PROP, ['installed'])
